@@ -690,8 +690,8 @@ Section Refine.
     rewrite imap_cons. pose proof (HG O s eq_refl) as H0.
     specialize (IH (G ∘ S) (fun i t Ht => HG (S i) t Ht)).
     cbn [omap list_omap fmap list_fmap]. destruct (G O s) as [s' [o|]]; cbn [snd fst] in *.
-    - cbn. rewrite sum_ints_app. cbn in IH. rewrite IH. lia.
-    - cbn. cbn in IH. rewrite IH. lia.
+    - cbn. rewrite sum_ints_app. cbn in IH. rewrite IH. unfold zsum in *. lia.
+    - cbn. cbn in IH. rewrite IH. unfold zsum in *. lia.
   Qed.
 
   Lemma step_del sh (ks : list (list N)) : Homed sh -> (0 < List.length sh)%nat ->
